@@ -383,7 +383,7 @@ def run(ctx):
     ctx.stage()
     ok = ctx.coq_build(timeout=600)
     exe = vf.build_driver(ctx)
-    n = 2000 if ctx.thorough else 150
+    n = 1200 if ctx.thorough else 150
     t0 = time.time()
     pairs, skipped = make_pairs(ctx, n)
     ctx.log('%d geometry pairs built in %.1fs (%d generation attempts skipped)' % (len(pairs), time.time() - t0, skipped))
